@@ -31,6 +31,7 @@ PINS = {
     'structures.py::GeoPolygon.bounds': 'd90aead0fc54814e',          # SrcMember: `self.bounds` is the outline's bounding box
     'collections.py::Track.__init__': '01f0c36a2b9a4fbb',            # SrcColl: `type(self)(xs)` is the model's `rewrap`
     'collections.py::CollectionBase.__init__': '998def96113cc433',
+    '_geometry.py::do_edges_intersect': 'c6c432c7d6b4dfad',          # SrcRelate: the model's sweep (tied by C02's streams)
 }
 
 
@@ -310,8 +311,68 @@ def track_unit():
                 ctx_params=[('a', 'Option Int'), ('b', 'Option Int')])
 
 
+# ----------------------------------------------------------------------------------------------------------
+# geostructures/structures.py :: PolygonBase.contains_shape / intersects_shape — the relation logic around the sweep   (C02)
+#
+# every shape is a `GV.Shape`; the static tag of the argument (multi / point-like / polygon-like / line-like) picks the
+# instance.  What the logic *uses* is abstract: `edgesOf` (`edges()`), `segsOf` (`segments`), `cc` (`coord in shape`,
+# `contains_coordinate`), `tc` (`_touches_coordinate`), `holesOf`, `cen` (`centroid`), `rs ri` (the recursive calls on a
+# member of a multi-shape argument).  `do_edges_intersect` is the model's sweep (pinned; tied by C02's own streams).
+
+def relate_unit():
+    src = py2lean.Source(_repo('structures.py'))
+    P = 'PolygonBase'
+    E = 'Except Bool'
+    insts = [
+        Inst(f'{P}.contains_shape', 'containsMulti', [('self', 'PolyS'), ('shape', 'MultiA')], 'Bool'),
+        Inst(f'{P}.contains_shape', 'containsPoint', [('self', 'PolyS'), ('shape', 'PtA')], 'Bool'),
+        Inst(f'{P}.contains_shape', 'containsPoly', [('self', 'PolyS'), ('shape', 'PolyA')], E),
+        Inst(f'{P}.contains_shape', 'containsLine', [('self', 'PolyS'), ('shape', 'LineA')], E),
+        Inst(f'{P}.intersects_shape', 'intersectsMulti', [('self', 'PolyS'), ('shape', 'MultiA')], 'Bool'),
+        Inst(f'{P}.intersects_shape', 'intersectsPoint', [('self', 'PolyS'), ('shape', 'PtA')], 'Bool'),
+        Inst(f'{P}.intersects_shape', 'intersectsPoly', [('self', 'PolyS'), ('shape', 'PolyA')], E),
+        Inst(f'{P}.intersects_shape', 'intersectsLine', [('self', 'PolyS'), ('shape', 'LineA')], E),
+    ]
+    for t in ('PolyS', 'PolyA', 'LineA', 'PtA', 'Any'):
+        py2lean.LEAN_TYPE.setdefault(t, 'GV.Shape')
+    py2lean.LEAN_TYPE.setdefault('MultiA', 'List GV.Shape')
+    py2lean.LEAN_TYPE.setdefault('Hole', 'List GV.Pt')
+    py2lean.LEAN_TYPE.setdefault('Edge', 'GV.Edge')
+
+    def isinstance_hook(typ):
+        return {'MultiA': {'MultiShape'}, 'PtA': {'PointLike'}, 'PolyA': {'PolygonLike'}, 'LineA': {'LineLike'},
+                'PolyS': {'PolygonLike'}}.get(typ)
+
+    def sweep(tr, args):
+        if [a.typ for a in args] != ['List Prod Pt Pt', 'List Prod Pt Pt']:
+            raise Unsupported(f'do_edges_intersect({", ".join(a.typ for a in args)})')
+        return Val(f'(GV.doEdgesIntersect {args[0].text} {args[1].text})', 'Bool')
+
+    ER = 'List List Prod Pt Pt'
+    abstract = {
+        ('PolyS', 'edges', ()): ('edgesOf {0}', ER), ('PolyA', 'edges', ()): ('edgesOf {0}', ER),
+        ('PolyS', 'contains_coordinate', ('Pt',)): ('cc {0} {1}', 'Bool'),
+        ('PolyS', '_touches_coordinate', ('Pt',)): ('tc {0} {1}', 'Bool'),
+        ('PolyS', '__contains__', ('Pt',)): ('cc {0} {1}', 'Bool'), ('PolyA', '__contains__', ('Pt',)): ('cc {0} {1}', 'Bool'),
+        ('LineA', '__contains__', ('Pt',)): ('cc {0} {1}', 'Bool'),
+        ('PolyS', 'contains_shape', ('Any',)): ('rs {0} {1}', 'Bool'), ('PolyS', 'intersects_shape', ('Any',)): ('ri {0} {1}', 'Bool'),
+        ('Hole', 'bounding_coords', ()): ('{0}', 'List Pt'),
+    }
+    attr = {('MultiA', 'geoshapes'): ('{}', 'List Any'), ('PtA', 'centroid'): ('(cen {})', 'Pt'),
+            ('LineA', 'segments'): ('(segsOf {})', 'List Prod Pt Pt'), ('PolyS', 'holes'): ('(holesOf {})', 'List Hole')}
+    return Unit('SrcRelate', src, 'GV.Src.Relate', ['GeoVerif.Model.Relate', 'GeoVerif.Model.PyPrelude'], insts,
+                {'PolyS': P}, attr_types=attr, abstract=abstract,
+                pins={'_geometry.py::do_edges_intersect': PINS['_geometry.py::do_edges_intersect']},
+                intrinsics={'do_edges_intersect': sweep},
+                hooks={'isinstance': isinstance_hook, 'keywords': lambda tr, e: True},
+                ctx_params=[('edgesOf', 'GV.Shape → List (List GV.Edge)'), ('segsOf', 'GV.Shape → List GV.Edge'),
+                            ('cc', 'GV.Shape → GV.Pt → Bool'), ('tc', 'GV.Shape → GV.Pt → Bool'),
+                            ('holesOf', 'GV.Shape → List (List GV.Pt)'), ('cen', 'GV.Shape → GV.Pt'),
+                            ('rs', 'GV.Shape → GV.Shape → Bool'), ('ri', 'GV.Shape → GV.Shape → Bool')])
+
+
 UNITS = {'SrcTime': time_unit, 'SrcBase': base_unit, 'SrcMulti': multi_unit, 'SrcColl': coll_unit, 'SrcPip': pip_unit,
-         'SrcMember': member_unit, 'SrcTrack': track_unit}
+         'SrcMember': member_unit, 'SrcTrack': track_unit, 'SrcRelate': relate_unit}
 
 
 def render(name):
